@@ -82,24 +82,29 @@ Theorem C11_kernel_guard_trivial : forall c, g_no_undelayed_kernel c = true.
 Proof. exact kernel_guard_trivial. Qed.
 Print Assumptions C11_kernel_guard_trivial.
 
-(* what remains refuted on the faithful model (replayed on the real code: corpus/C11) *)
-(* vectorize=True, a single-unit source, two slots in one chain: IndexError at the first call (loud) *)
+(* the scalar shared chain (vectorize=True, single-unit source, two slots in one chain: IndexError) is repaired in /repo (D95;
+   model switch Gamma.fixed_scalar_chain = true); its witness is a regression case inside the guards *)
 Definition w_shared := mkGC dt8 true 0 [S1; T0; T0]
   [mkG 0 1 (mkq 1 1) (Some (mkq 2 1, Some (mkq 1 1))); mkG 0 2 (mkq 1 1) (Some (mkq 2 1, Some (mkq 1 1)))].
-Theorem C11_refuted_scalar_shared_chain : gwf w_shared = true /\ g_no_scalar_shared_chain w_shared = false /\
-  gimpl_run w_shared 6 = ErrIndex.
-Proof. repeat split; vm_compute; reflexivity. Qed.
-Print Assumptions C11_refuted_scalar_shared_chain.
-(* regression (fix D45): a chain whose members come from all units of the source vector in another order than 0..n-1 used
-   to read the vector unpermuted; the repaired mechanism is inside the guards and meets the specification *)
-Definition w_perm := mkGC dt8 true 0 [S1; mkNode true 0 (mkq 3 1) (mkq 3 2); T0]
-  [mkG 1 2 (mkq 2 1) (Some (mkq 2 1, Some (mkq 1 1))); mkG 0 2 (mkq (-1) 2) (Some (mkq 2 1, Some (mkq 1 1)))].
-Example C11_permuted_sources_ok : gwf w_perm = true /\ gguards w_perm = true /\ gimpl_run w_perm 8 = Ok (gspec_run w_perm 8).
+Example C11_fixed_scalar_shared_chain : gwf w_shared = true /\ gguards w_shared = true /\ gimpl_run w_shared 6 = Ok (gspec_run w_shared 6).
 Proof. split; [vm_compute; reflexivity|]. split; [vm_compute; reflexivity|]. apply C11_partial; vm_compute; reflexivity. Qed.
-Print Assumptions C11_permuted_sources_ok.
+Print Assumptions C11_fixed_scalar_shared_chain.
+
+(* ---- the full statement, as strongly as it is true: for EVERY well-formed circuit whose delays are implemented at all (every
+        delayed edge's source has a delay above the step size — shorter ones are deliberately neglected) and in which
+        round(rate, 12) merges no two different rates, the compiled system is the explicitly written per-edge chain system:
+        any mixture of (d, s) pairs, plain delays (with or without dde_approx), undelayed siblings, shared sources/targets,
+        both vectorize settings.  No finding-guard is left. ---- *)
+Theorem C11_full : forall c n, gwf c = true -> g_above_step c = true -> g_rates_exact c = true ->
+  gimpl_run c n = Ok (gspec_run c n).
+Proof. exact gfull_scope. Qed.
+Print Assumptions C11_full.
+(* the unrestricted statement C11_full_statement fails only on that scope boundary: a delay below the step size is ignored *)
+Definition w_short := mkGC dt8 false 0 [S1; T0] [mkG 0 1 (mkq 1 1) (Some (mkq 1 16, Some (mkq 1 16)))].
 Theorem C11_full_refuted : ~ C11_full_statement.
 Proof.
-  intros H. destruct C11_refuted_scalar_shared_chain as [Hw [_ He]]. specialize (H w_shared 6%nat Hw). rewrite He in H. discriminate.
+  intros H. assert (Hw : gwf w_short = true) by (vm_compute; reflexivity). specialize (H w_short 4%nat Hw).
+  revert H. apply res_eqb_false_neq. vm_compute. reflexivity.
 Qed.
 Print Assumptions C11_full_refuted.
 
